@@ -177,6 +177,24 @@ def main(argv):
         if verbose:
             for r in rs:
                 print("          ", "guard" if r.expect_fail else "     ", r.name, r.status, r.solver, round(r.time_s, 2))
+    # unit test of the "goal is literally a hypothesis" shortcut: alpha-equality must not leak state between comparisons
+    import z3
+
+    from pyvc.symex import alpha_eq
+
+    _x, _y, _a = z3.Int("x!1"), z3.Int("y!2"), z3.Int("a")
+    _f = z3.Function("f", z3.IntSort(), z3.IntSort())
+    _g1 = z3.ForAll([_x], z3.Implies(_f(_x) > _a, z3.Exists([_y], _f(_y) == _x + 1)))
+    _h_bad = z3.ForAll([_y], z3.Implies(_f(_y) > _a, z3.Exists([_x], _f(_x) == _y + 2)))  # differs deep inside
+    _h_ok = z3.ForAll([_y], z3.Implies(_f(_y) > _a, z3.Exists([_x], _f(_x) == _y + 1)))
+    _h_share = z3.ForAll([_y], z3.Implies(_f(_y) > _a, z3.Exists([_x], _f(_x) == _y + 3)))
+    unit = [alpha_eq(_g1, _h_bad) is False, alpha_eq(_g1, _h_ok) is True, alpha_eq(_g1, _h_share) is False, alpha_eq(_h_bad, _h_share) is False]
+    if all(unit) and not pats:
+        print(f"ok      unit alpha_eq                                                          {len(unit)} comparisons")
+    elif not pats:
+        bad += 1
+        unsound += 1
+        print(f"FAIL    unit alpha_eq                                                          UNSOUND: {unit}")
     # solver regression files: satisfiable inputs on which a solver of the portfolio is known to answer `unsat`;
     # the confirmation step of pyvc.solve must turn that into `disagree` (never `proved`)
     import shutil
